@@ -165,7 +165,11 @@ def register_all(prop):
                "proxies. Oracle: the child is alive, its output has no 'panic:' / 'fatal error:' (and, under -race in the thorough tier, no DATA RACE), "
                "the bystander still gets a Pong and its tunnel answers, a fresh login + registration works. frpc_hostile_server: the real cmd/frpc child "
                "against a scripted server sending hostile LoginResp, NewProxyResp, NatHoleResp, Pong, StartWorkConn and floods of ReqWorkConn; oracle: alive, "
-               "no fatal output, admin API still answers. non-trivial = >= 1 authenticated peer and >= 3 messages / >= 2 hostile messages."),
+               "no fatal output, admin API still answers. frps_churn: 2..6 scripted clients run short loops (5..40 rounds) at the same time against one frps child: "
+               "join / leave the same tcp, http and tcpmux group, register / close the same stcp, xtcp and tcp names, visitor connections and NAT-hole requests "
+               "for proxies that come and go, drops and re-logins, user connections; everything well formed, only the interleaving is hostile. Oracle: child "
+               "alive, no fatal output, every surviving session still gets a Pong (no stalled message handling), a fresh session is answered when it joins "
+               "the groups fought over. non-trivial = >= 1 authenticated peer and >= 3 messages / >= 2 hostile messages / two workers sharing an operation."),
          assumptions=["race-only failures are found probabilistically", "a dead child is not shrunk structurally beyond what rapid achieves by re-running cases against fresh children"])
     prop("C05", qshards=8, tshards=16, qlimit=600, tlimit=3600,
          rule=("wire_confidentiality: real frpc and frps talk through a recording relay (TCP, and UDP for kcp/quic in the thorough tier); per case fresh "
